@@ -47,6 +47,10 @@ impl Decoder for Socks5InitialRequestDecoder {
     type Error = anyhow::Error;
 
     fn decode(&mut self, src: &mut BytesMut) -> Result<Option<Self::Item>> {
+        // version, number of methods, methods: wait until the whole message has arrived
+        if src.len() < 2 || src.len() < 2 + src[1] as usize {
+            return Ok(None);
+        }
         let version = src.get_u8();
         if VERSION != version {
             bail!("unsupported version: {}", version);
@@ -68,6 +72,10 @@ impl Decoder for Socks5CommandRequestDecoder {
     type Error = anyhow::Error;
 
     fn decode(&mut self, src: &mut BytesMut) -> Result<Option<Self::Item>> {
+        // version, command, reserved, address: wait until the whole message has arrived
+        if src.len() < 5 || src.len() < 3 + address::try_decode_at(src, 3)? {
+            return Ok(None);
+        }
         let version = src.get_u8();
         if VERSION != version {
             bail!("unsupported version: {}", version);
@@ -87,6 +95,9 @@ impl Decoder for Socks5InitialResponseDecoder {
     type Error = anyhow::Error;
 
     fn decode(&mut self, src: &mut BytesMut) -> Result<Option<Self::Item>, Self::Error> {
+        if src.len() < 2 {
+            return Ok(None);
+        }
         let version = src.get_u8();
         if VERSION != version {
             bail!("unsupported version: {}", version);
@@ -103,6 +114,9 @@ impl Decoder for Socks5CommandResponseDecoder {
     type Error = anyhow::Error;
 
     fn decode(&mut self, src: &mut BytesMut) -> Result<Option<Self::Item>> {
+        if src.len() < 5 || src.len() < 3 + address::try_decode_at(src, 3)? {
+            return Ok(None);
+        }
         let version = src.get_u8();
         if VERSION != version {
             bail!("unsupported version: {}", version);
